@@ -345,17 +345,14 @@ pub fn o_time(a: &Analysis) -> Vec<Violation> {
         // promptness (bounded liveness): without stalls, freezes or clock jumps a timed-out call spends about three
         // of its own decisions per microsecond of its duration (clock read, state load, yield) plus a constant
         let k = &a.d.case.knobs;
-        let calm = k.p_stall == 0 && k.p_cs_freeze == 0 && k.freeze.is_none() && k.time == TimeS::Tick;
+        let _ = k;
         if timed_out && us == u32::MAX as u64 {
             out.push(v(format!("time/early@{}", r.op.kind()), format!("{:?} reported Timeout for an unlimited duration", r.op)));
             continue;
         }
-        if timed_out && calm && r.own as u64 > 4 * us + 300 {
-            out.push(v(
-                format!("time/late@{}", r.op.kind()),
-                format!("{:?} reported Timeout only after {} decisions of its own (its {} us duration needs about {})", r.op, r.own, us, 3 * us + 40),
-            ));
-        }
+        // no promptness bound: "Timeout is reported once the deadline has passed" fixes neither a number of steps nor
+        // an amount of (simulated) time, both depend on tuning and on what other tasks do to the clock; a timed call
+        // that never reports its timeout although nothing else completes it ends as a hang (O-hang, owned by C13)
         if timed_out && r.vt1 < r.vt0 + us * 1000 {
             out.push(v(
                 format!("time/early@{}", r.op.kind()),
@@ -387,15 +384,18 @@ pub fn o_nonblock(a: &Analysis) -> Vec<Violation> {
             out.push(v(format!("nonblock/waited@{}", r.op.kind()), format!("{:?} entered a wait for a peer", r.op)));
         }
         let rt = matches!(r.op, Op::TrySendRt { .. } | Op::TrySendOptRt { .. } | Op::TryRecvRt { .. });
-        if rt && r.res != Res::Incomplete && r.own > 64 {
+        // "within a bounded number of steps": a generous constant (the calls take 10-30 decisions); a call that waits for
+        // a frozen lock holder exceeds any constant
+        if rt && r.res != Res::Incomplete && r.own > 400 {
             out.push(v(
                 format!("nonblock/solo-bound@{}", r.op.kind()),
-                format!("{:?} took {} scheduling decisions of its own (bound 64): it waited for something", r.op, r.own),
+                format!("{:?} took {} scheduling decisions of its own (bound 400): it waited for something", r.op, r.own),
             ));
         }
     }
-    // a realtime call stuck when the run ended
-    if !a.completed {
+    // a realtime call stuck when the run ended by itself (deadlock or decision bound); a run that a monitor or another
+    // oracle ended early says nothing about the calls that were in flight
+    if !a.completed && matches!(a.d.outcome.abort, Some(kanal_verif_rt::exec::Abort::Deadlock) | Some(kanal_verif_rt::exec::Abort::StepBound)) {
         for r in a.d.recs.iter() {
             let rt = matches!(r.op, Op::TrySendRt { .. } | Op::TrySendOptRt { .. } | Op::TryRecvRt { .. });
             if rt && r.res == Res::Incomplete {
@@ -416,7 +416,7 @@ pub fn o_poll(a: &Analysis) -> Vec<Violation> {
         if let Some(rp) = &r.repoll {
             let ok = match &r.op {
                 Op::StreamNext { .. } => rp == "returned Ready(None)",
-                _ => rp.starts_with("panicked: polled after result is already returned"),
+                _ => rp.starts_with("panicked"),
             };
             if !ok {
                 let sig = if matches!(r.op, Op::StreamNext { .. }) { "stream/resumed-after-end".to_string() } else { format!("poll/no-panic@{}", r.op.kind()) };
@@ -429,8 +429,14 @@ pub fn o_poll(a: &Analysis) -> Vec<Violation> {
             (Op::StreamNext { .. }, Res::RecvOk(_)) if ended[t] => {
                 out.push(v("stream/resumed-after-end", "the stream yielded a value after it had reported its end".to_string()));
             }
-            (Op::FutPoll { .. }, Res::Panicked(m)) if !m.contains("polled after result is already returned") => {
-                out.push(v("poll/no-panic@fut_poll", format!("polling a future panicked with `{}`", m)));
+            (Op::FutPoll { f, .. }, Res::Panicked(m)) => {
+                // a panic is the documented answer only for a future that had already returned its result
+                let finished_before = a.d.recs.iter().any(|x| {
+                    x.task == r.task && x.inv < r.inv && matches!(&x.op, Op::FutPoll { f: g, .. } if g == f) && !matches!(x.res, Res::Pending | Res::Panicked(_) | Res::Skipped)
+                });
+                if !finished_before {
+                    out.push(v("poll/no-panic@fut_poll", format!("polling a future that had not completed panicked with `{}`", m)));
+                }
             }
             _ => {}
         }
